@@ -41,7 +41,11 @@ Definition convert_kind (orc : oracles) (base_tag : str) (val : str) (k : kind) 
     | Some (inr e) => Ok (inr e)
     | None => Panic (oracle_miss (s2l "dur:" ++ hex_of_str val))
     end
-  | KString | KComp => Ok (inl (VStr val))
+  | KString => Ok (inl (VStr val))
+  | KComp =>
+    (* harness type Comp: its only methods have pointer receivers; UnmarshalFlag rejects texts starting with an exclamation mark *)
+    if has_prefix val [33] then Ok (inr (s2l "comp: rejected " ++ val))
+    else Ok (inl (VStr val))
   | KBool =>
     match val with
     | [] => Ok (inl (VBool true))
